@@ -184,7 +184,7 @@ def run_shard(spec, tier, seed, budget_s):
     i = spec['shard']
     rng = random.Random(f'{seed}-c05-{i}')
     nst = {'quick': 3, 'thorough': 5}[tier]
-    target = {'quick': 130, 'thorough': 4000}[tier]
+    target = {'quick': 200, 'thorough': 4000}[tier]
     k = 0
     with monitors.ReachMonitor() as reach:
         while k < target and not sh.out_of_time():
